@@ -22,8 +22,11 @@ func (e *CombineExpr) Evaluate(engine *Engine, input interface{}, args []*Statem
 		return nil, err
 	}
 
+	// The first argument has been evaluated already. Evaluating it again would
+	// double the work for every level of nested Combine().
 	slice := reflect.MakeSlice(reflect.TypeOf(firstArg), 0, 0)
-	for _, arg := range args {
+	slice = reflect.AppendSlice(slice, reflect.ValueOf(firstArg))
+	for _, arg := range args[1:] {
 		argValue, err := arg.Evaluate(engine, input)
 		if err != nil {
 			return nil, err
